@@ -23,7 +23,10 @@ CONSTANTS
   CapInbox,     \* capacity of an actor inbox, 0 = unbounded              (target_actor/mod.rs:89)
   AckLate,      \* TRUE = code acknowledges a requester registering after completion (repair of F1)
   RecordBefore, \* TRUE = input state captured before the script (repair of F3)
-  StrictStart   \* TRUE = demand C01's watch clause at the instant of the spawn (exhibits finding F10)
+  StrictStart,  \* TRUE = demand C01's watch clause at the instant of the spawn (exhibits finding F10)
+  Unrequests    \* FALSE = the code: nobody ever originates Unrequested (its handlers exist but are unreachable);
+                \* TRUE = the TODO of build_target_actor.rs ("Eventually, unrequest dependency services"): a build that
+                \*        completed releases the services it depends on - explored by TLC only, see DESIGN.md
 
 T == 1..N
 ROOT == 0
@@ -130,7 +133,11 @@ InitLocal(t) == [toExec |-> TRUE, executed |-> FALSE,
 \* target_actor_helper.rs:55
 ShouldExec(s, k) == s.toExec /\ Reqs(s, k) # {} /\ s.unavB = {} /\ s.unavS = {}
 
-R(s, o) == [st |-> s, out |-> o, started |-> FALSE, svcFail |-> FALSE, aggOk |-> {}, begun |-> FALSE]
+R(s, o) == [st |-> s, out |-> o, started |-> FALSE, svcFail |-> FALSE, aggOk |-> {}, begun |-> FALSE, stopped |-> FALSE]
+
+\* target_actor_helper.rs handle_unrequested: the requester is forgotten; TRUE iff it was there and was the last one
+Forget(s, k, r) == SetReqs(s, k, Reqs(s, k) \ {r})
+WasLast(s, k, r) == r \in Reqs(s, k) /\ Reqs(s, k) \ {r} = {}
 
 \* target_actor_helper.rs:62  notify_invalidated
 NotifyInvalidated(t, s, k) ==
@@ -155,6 +162,10 @@ HandleBuild(t, s, m) ==
                  THEN R(s1, <<M(m.from, "ok", "b", t, TRUE)>>)
                  ELSE R(s1, <<>>)
     [] m.ty = "req" /\ m.k = "s" -> R(s, <<M(m.from, "ok", "s", t, FALSE)>>)
+    \* build_target_actor.rs Unrequested arm: the last build requester gone => the dependencies are released in turn
+    [] m.ty = "unreq" -> IF WasLast(s, m.k, m.from) /\ m.k = "b"
+                         THEN R(Forget(s, m.k, m.from), ToDeps(t, "unreq", "b") \o ToDeps(t, "unreq", "s"))
+                         ELSE R(Forget(s, m.k, m.from), <<>>)
     [] OTHER -> R(s, <<>>)
 
 \* service_target_actor.rs:44-78
@@ -170,6 +181,13 @@ HandleService(t, s, m) ==
             ELSE IF AckLate /\ inserted /\ s.executed
                  THEN R(s1, <<M(m.from, "ok", "s", t, TRUE)>>)
                  ELSE R(s1, <<>>)
+    \* service_target_actor.rs Unrequested arm: the last service requester gone => release the dependencies, stop_service()
+    \* (to_execute / executed are left as they are: a later Requested finds len() == 1 and re-requests the dependencies,
+    \* but nothing makes the stopped service start again or answer - TLC shows where that leads with Unrequests = TRUE)
+    [] m.ty = "unreq" -> IF WasLast(s, m.k, m.from) /\ m.k = "s"
+                         THEN [R([Forget(s, m.k, m.from) EXCEPT !.up = FALSE], ToDeps(t, "unreq", "b") \o ToDeps(t, "unreq", "s"))
+                                 EXCEPT !.stopped = TRUE]
+                         ELSE R(Forget(s, m.k, m.from), <<>>)
     [] OTHER -> R(s, <<>>)
 
 \* aggregate_target_actor.rs:30-80
@@ -194,6 +212,10 @@ HandleAggregate(t, s, m) ==
          IN IF inserted /\ Unav(s1, m.k) = {}
             THEN [R(s1, o1 \o <<M(m.from, "ok", m.k, t, Act(s1, m.k) # {})>>) EXCEPT !.aggOk = {m.k}]
             ELSE R(s1, o1)
+    \* aggregate_target_actor.rs Unrequested arm
+    [] m.ty = "unreq" -> IF WasLast(s, m.k, m.from)
+                         THEN R(Forget(s, m.k, m.from), ToDeps(t, "unreq", m.k))
+                         ELSE R(Forget(s, m.k, m.from), <<>>)
     [] OTHER -> R(s, <<>>)
 
 Handle(t, s, m) == CASE kind[t] = "b" -> HandleBuild(t, s, m)
@@ -254,7 +276,7 @@ ObsRecv(t, m, r) ==
   /\ ready' = IF r.started THEN [ready EXCEPT ![t] = TRUE] ELSE ready
   /\ failed' = IF r.svcFail THEN [failed EXCEPT ![t] = TRUE]
                ELSE IF r.started THEN [failed EXCEPT ![t] = FALSE] ELSE failed
-  /\ proc' = IF r.started THEN [proc EXCEPT ![t] = 1] ELSE IF r.svcFail THEN [proc EXCEPT ![t] = 0] ELSE proc
+  /\ proc' = IF r.started THEN [proc EXCEPT ![t] = 1] ELSE IF r.svcFail \/ r.stopped THEN [proc EXCEPT ![t] = 0] ELSE proc
   /\ stale' = IF r.started \/ r.begun THEN [stale EXCEPT ![t] = {}] ELSE stale
   \* what a service (re)start - successful or not - was decided on (for builds: BuildSpawn)
   /\ cap' = IF r.started \/ r.svcFail THEN [cap EXCEPT ![t] = EffIn(t)] ELSE cap
@@ -392,7 +414,8 @@ BuildResult(t) ==
                  [] OTHER -> \* notify_success
                       LET ex == ~s0.toExec
                       IN R([s0 EXCEPT !.executed = ex],
-                           IF ex THEN ToSet(t, s0.reqB, "ok", "b", TRUE) ELSE <<>>)
+                           (IF ex THEN ToSet(t, s0.reqB, "ok", "b", TRUE) ELSE <<>>)
+                             \o (IF Unrequests /\ ex THEN ToDeps(t, "unreq", "s") ELSE <<>>))
          \* a build that really re-ran has rebuilt outputs: whoever reaches it through aggregates must re-decide its run
          marked == IF ph = "done_ok"
                    THEN [u \in T |-> IF kind[u] # "a" /\ t \in EffDeps(u) THEN stale[u] \cup {t} ELSE stale[u]]
